@@ -131,3 +131,222 @@ def coef_containers(c, include_low_precision=True):
     if include_low_precision:
         out.append(('ndarray-f32', np.array(c, dtype=np.float32), False))
     return out
+
+
+# ====================================================================================================================
+# Hardening pass 2 (HARDENING2.md): class D in the quick tier, class E (argument forms) as DATA, class F (foreign traffic)
+# ====================================================================================================================
+# ------------------------------------------------------------------------------------------ class D: very high orders
+# 171! > 1.8e308: any closed form built from n!, Gamma(n+1) or Pochhammer symbols leaves double precision at n = 171 although the
+# polynomial values themselves (recurrences) stay O(1)..O(n^2).  A handful of orders at and beyond that line, for every family.
+HIGH_ORDERS = (171, 172, 200, 256, 400)
+
+
+def high_orders(fam, thorough=False):
+    """The orders of HIGH_ORDERS that are numerically meaningful for a family on its workload interval (measured on
+    /repo @ faa8443: every single-order routine agrees with the exact definition to <= 7e-13 of scale up to n = 400; the Hermite
+    VALUES leave double precision between n = 256 (5e292 at |x| <= 1.75) and n = 400, so those families stop at 200)."""
+    if fam.startswith('hermite'):
+        return (171, 172, 200)
+    return HIGH_ORDERS + ((180, 300, 350) if thorough else ())
+
+
+# ------------------------------------------------------------------------------------------ class E: argument forms (data)
+# How this table was established (2026-09-27, /repo @ faa8443, scripts probe_forms*.py / probe_orders.py of the hardening-2 pass):
+# every public routine of C07-C10 was called with each form below and with the canonical form (python int orders, python float
+# shape parameters, float64 ndarray coordinates / coefficient lists) of the same mathematical input; a form is listed as accepted
+# when the current tree returns the canonical result (1e-12 of scale; single-precision forms: 1e-6).  Forms for which the current
+# tree raises, truncates into an integer dtype, or wraps around are OUT OF DOMAIN (excluded and counted where a contract meets them).
+#
+# orders of the one-index families (single-order AND sequence forms, value AND derivative routines): all of these are accepted.
+ORDER_FORMS = [('pyint', int), ('int64', np.int64), ('int32', np.int32), ('uint32', np.uint32), ('uint64', np.uint64), ('intp', np.intp)]
+# (8/16-bit numpy integers: out of domain by an earlier ruling - their own arithmetic overflows.)
+# (0-d integer ARRAYS as orders - np.array(5) - are evaluated like python ints by every routine today, but they are unhashable: a property-
+#  preserving refactor that keys a memo table / set / dict by the order raises TypeError for them (the false-alarm probes benign/C07 R, C08 Q, R and
+#  C09 R do exactly that).  They are therefore OUT OF DOMAIN as orders, alone or inside lists, for every family: not driven, not judged.)
+# (n, m) of zernike_nm / zernike_nm_der / Q2d / xy / hopkins: signed forms for both indices; an UNSIGNED m makes zernike_nm_der, Q2d,
+# Q2d_seq and zernike_nm_der_seq wrong today (-m wraps) and zernike_nm_seq raise for uint64: unsigned is accepted for n only, with a
+# signed m, in the single-order forms.
+NM_FORMS = [('int64', np.int64), ('int32', np.int32), ('intp', np.intp)]
+N_ONLY_FORMS = [('uint32', np.uint32), ('uint64', np.uint64)]
+# containers of an ascending order list (one-index *_seq): list, tuple, int64 / int32 / uint32 / uint64 ndarray, list of numpy ints, range,
+# dict keys view; a dict keys view or a one-shot generator / iterator is accepted by every routine except cheby2(_der)_seq and cheby4(_der)_seq
+# (np.asarray(ns) makes a 0-d object array of them: TypeError today, out of domain).
+GENERATOR_REJECTED = ('cheby2_seq', 'cheby2_der_seq', 'cheby4_seq', 'cheby4_der_seq')
+# containers of a list of (n, m) terms (zernike_nm_seq, zernike_nm_der_seq, Q2d_seq, xy_seq): list / tuple of tuples or lists, (k, 2) integer
+# ndarray (int64, int32), dict keys view; generators / iterators raise TypeError (len()) today: out of domain.  Q2d_nm_c_to_a_b accepts all of
+# these and generators for both of its arguments.
+# shape parameters alpha, beta (jacobi*, laguerre*, dickson*, jacobi_sum_clenshaw*): python float, numpy float64, numpy float32 (single-
+# precision class), python int and numpy int64 for integer values, fractions.Fraction; 0-d arrays raise (unhashable): out of domain.
+PARAM_FORMS = [('pyfloat', float, True), ('float64', np.float64, True), ('float32', np.float32, False)]      # (label, maker, exact)
+INT_PARAM_FORMS = [('pyint', int, True), ('np-int64', np.int64, True)]                                        # integer-valued parameters only
+
+
+def order_forms(quick=True):
+    return ORDER_FORMS
+
+
+def more_order_containers(ns, fn=None):
+    """(label, factory) containers of an ascending order list beyond polyhard.order_containers: unsigned ndarrays, 0-d entries, dict
+    keys view, one-shot generator / iterator (factories: a generator can be consumed once)."""
+    ns = [int(n) for n in ns]
+    out = [('ndarray-uint32', lambda: np.array(ns, dtype=np.uint32)), ('ndarray-uint64', lambda: np.array(ns, dtype=np.uint64)),
+           ('list-of-uint64', lambda: [np.uint64(n) for n in ns]), ('list-of-mixed-signed-ints', lambda: [(int, np.int32, np.int64, np.intp)[i % 4](n) for i, n in enumerate(ns)])]     # (mixing uint64 with signed integers makes np.asarray produce float64: numpy's nature, out of domain)
+    if fn not in GENERATOR_REJECTED:
+        out += [('dict-keys', lambda: dict.fromkeys(ns).keys()), ('generator', lambda: (n for n in ns)), ('iterator', lambda: iter(ns))]
+    return out
+
+
+def term_containers(terms, fn=None):
+    """(label, object) containers of a list of two-index terms accepted by zernike_nm(_der)_seq, Q2d_seq and xy_seq (xy_seq runs
+    np.asarray(mns): a dict keys view raises there today and is out of domain)."""
+    terms = [(int(a), int(b)) for a, b in terms]
+    out = _term_containers(terms)
+    return [e for e in out if not (fn == 'xy_seq' and e[0] == 'dict-keys')]
+
+
+def _term_containers(terms):
+    return [('list-of-tuples', [tuple(e) for e in terms]), ('list-of-lists', [list(e) for e in terms]), ('tuple-of-tuples', tuple(tuple(e) for e in terms)),
+            ('ndarray-int64', np.array(terms, dtype=np.int64)), ('ndarray-int32', np.array(terms, dtype=np.int32)),
+            ('list-of-numpy-int-pairs', [(np.int64(a), np.int32(b)) for a, b in terms]), ('dict-keys', dict.fromkeys(terms).keys())]
+
+
+# coordinate dtype kinds.  Single-order value and derivative routines of every one-index family (jacobi, legendre, cheby1-4, hermite_He/H,
+# laguerre, dickson1/2, Qbfs, Qcon and their *_der): python int / float / complex, int64 / int32 ndarrays (any ndim), bool ndarrays,
+# complex128 ndarrays, complex64 (single-precision class) are all evaluated as the same mathematical points today.  Unsigned integer
+# coordinate arrays wrap in (x - 1) and are out of domain.  Sequence forms: complex coordinates are accepted by every routine; integer
+# coordinates only where the routine does not allocate its result in the coordinate dtype (or the values are integers): the table below;
+# everything else truncates today (out of domain; reported as an observation, not judged); python scalars raise (x.shape).
+SEQ_INT_COORDS = ('hermite_He_seq', 'hermite_He_der_seq', 'hermite_H_seq', 'hermite_H_der_seq', 'Qbfs_seq', 'Qcon_seq')
+SEQ_BOOL_COORDS = ('Qbfs_seq', 'Qcon_seq')
+# two-coordinate routines: Q2d, xy, xy_seq, hopkins accept integer / bool (xy, hopkins also complex) coordinates; zernike_nm and
+# zernike_nm_der accept an integer-typed radius only for n > |m| (the n == |m| branch multiplies ones_like(r) in place and raises
+# UFuncTypeError today); zernike_nm_seq, zernike_nm_der_seq and Q2d_seq truncate.  The Clenshaw routines and the sag-and-slope evaluators
+# allocate work arrays in the coordinate dtype: integer ndarrays are out of domain there, python int / float / numpy float64 / 0-d are accepted
+# (numpy float32 scalars: single-precision class; lists raise).
+INT_HERMITE_MAX_ORDER = 12          # Hermite polynomials of integer ndarrays are computed in int64 by single AND sequence form: keep them far from 2^63
+
+
+def seq_coord_kind_ok(fn, kind):
+    """Is a coordinate array of dtype kind `kind` ('f', 'c', 'i', 'u', 'b') in the domain of the one-index sequence routine fn?"""
+    if kind in 'fc':
+        return True
+    if kind == 'i':
+        return fn in SEQ_INT_COORDS
+    if kind == 'b':
+        return fn in SEQ_BOOL_COORDS
+    return False
+
+
+def int_points(lo, hi):
+    """Integer evaluation points inside [lo, hi] (always contains 0 and 1 when they are in the interval)."""
+    return [v for v in (-2, -1, 0, 1, 2, 3) if lo <= v <= hi]
+
+
+def coord_forms(lo, hi, seq=False):
+    """(label, kind, coordinates in that form, the same points as float64 / complex128 ndarray or python float / complex).
+    Single-order forms include python scalars; sequence forms are ndarrays only."""
+    pts = int_points(lo, hi)
+    ia = np.array(pts, dtype=np.int64)
+    w = hi - lo
+    zr = np.array([lo + w * 0.3125, lo + w * 0.75, lo + w * 0.5625])
+    zi = np.array([0.25, -0.375, 0.0]) * min(1.0, w / 2)
+    z = zr + 1j * zi
+    out = [('int64-1d', 'i', ia, ia.astype(float)), ('int32-1d', 'i', ia.astype(np.int32), ia.astype(float)),
+           ('int64-2d', 'i', np.array([pts, pts[::-1]], dtype=np.int64), np.array([pts, pts[::-1]], dtype=float)),
+           ('int64-0d', 'i', np.array(pts[-1], dtype=np.int64), np.array(float(pts[-1]))),
+           ('bool-1d', 'b', np.array([False, True]), np.array([0.0, 1.0])),
+           ('complex128-1d', 'c', z, z.copy()), ('complex128-2d', 'c', np.array([z, z[::-1].conj()]), np.array([z, z[::-1].conj()])),
+           ('complex128-0d', 'c', np.array(z[0]), np.array(z[0])), ('complex128-real-valued', 'c', zr.astype(complex), zr.astype(complex)),
+           ('complex64-1d', 'c', z.astype(np.complex64), z.astype(np.complex64).astype(complex))]
+    if not seq:
+        out += [(f'pyint:{v}', 'i', int(v), float(v)) for v in pts] + [('pyfloat', 'f', float(zr[0]), float(zr[0])), ('pycomplex', 'c', complex(z[0]), complex(z[0])),
+                                                                      ('npint64-scalar', 'i', np.int64(pts[-1]), float(pts[-1]))]
+    return out
+
+
+def form_class(label):
+    """Coarse class of a coordinate-form label (for violation keys: one defect, one key): integer / bool / complex / complex64 / pyfloat."""
+    lab = label.split(':')[0]
+    if lab.startswith(('int', 'pyint', 'npint', 'uint')):
+        return 'integer'
+    if lab.startswith('bool'):
+        return 'bool'
+    if lab.startswith('complex64'):
+        return 'complex64'
+    if lab.startswith(('complex', 'pycomplex')):
+        return 'complex'
+    return lab
+
+
+# ------------------------------------------------------------------------------------------ class F: foreign traffic
+def foreign_traffic(P, salt=0):
+    """Class F prelude: the OTHER public consumers of the helpers shared inside prysm.polynomials (recurrence_abc, the Qbfs f/g/h and
+    2D-Q F/G/f/g/abc tables, _initialize_alphas, config.precision) are exercised with hostile argument forms - numpy-typed orders and
+    parameters, float64 ndarray coefficient vectors (the in-place-prone paths), config.precision = 32, explicit non-default keyword
+    values, caller-provided work arrays, very high orders, few non-finite samples - unmonitored and unjudged.  Whatever the property's
+    own workload does next is judged as usual.  Returns the number of thunks that raised (an event, never a verdict)."""
+    import importlib
+    Q = importlib.import_module('prysm.polynomials.qpoly')
+    J = importlib.import_module('prysm.polynomials.jacobi')
+    x = np.array([-0.8125, -0.21875, 0.34375, 0.84375])
+    u = np.array([0.09375, 0.40625, 0.65625, 0.90625])
+    t = np.array([0.5, 1.75, 3.0, 5.5])
+    x32, u32, t32 = x.astype(np.float32), u.astype(np.float32), t.astype(np.float32)
+    c = np.array([0.75, -1.25, 0.5, 0.25, -0.625, 1.5, -0.375, 0.875, 0.125])
+    k = 3 + salt % 5
+    f32, i32, u64 = np.float32, np.int32, np.uint64
+
+    def helper(name, *a):
+        f = getattr(J, name, None) or getattr(Q, name, None)
+        return f(*a) if f is not None else None
+    th32 = [lambda: P.jacobi(i32(7), f32(0.5), f32(-0.5), x32), lambda: P.jacobi_seq([0, 3, 19], f32(-0.25), f32(-0.75), x32),
+            lambda: P.jacobi_der_seq(np.array([1, 2, 19]), 0, 4, x32), lambda: P.jacobi_sum_clenshaw(c.astype(f32), f32(0.25), f32(-0.25), x32),
+            lambda: P.jacobi_sum_clenshaw_der(c.astype(f32), -0.5, 0.5, x32, j=3),
+            lambda: [getattr(P, f'cheby{i}{s}')(19, x32) for i in '1234' for s in ('', '_der')],
+            lambda: [getattr(P, f'cheby{i}{s}_seq')([0, 1, 5, 19], x32) for i in '1234' for s in ('', '_der')],
+            lambda: (P.legendre(41, x32), P.legendre_seq([2, 41], x32), P.legendre_der_seq([0, 1, 41], x32)),
+            lambda: (P.Qcon(9, u32), P.Qcon_seq([0, 9, 19], u32), P.Qbfs(19, u32), P.Qbfs_seq([1, 2, 41], u32)),
+            lambda: (P.Q2d(5, 2, u32, t32), P.Q2d(19, -1, u32, t32), P.Q2d_seq([(5, 2), (5, -2), (7, 0), (19, 1)], u32, t32)),
+            lambda: (P.zernike_nm(8, 2, u32, t32, norm=False), P.zernike_nm_seq([(8, 2), (8, -2), (41, 1)], u32, t32, norm=False), P.zernike_nm_der(9, -3, u32, t32)),
+            lambda: (P.laguerre(19, f32(0.5), x32 + 1), P.laguerre_seq([0, 19], 1.5, x32 + 1), P.laguerre_der_seq([0, 1, 19], f32(0.5), x32 + 1)),
+            lambda: (P.hermite_He_seq([0, 19], x32), P.hermite_H_der_seq([1, 19], x32), P.dickson1_seq([0, 19], f32(0.75), x32), P.dickson2(19, -1, x32)),
+            lambda: (Q.clenshaw_qbfs(c.astype(f32), u32 * u32), Q.clenshaw_qbfs_der(c, u32 * u32, j=2), Q.compute_z_zprime_Qbfs(c, u32, u32 * u32),
+                     Q.compute_z_zprime_Qcon(c.astype(f32), u32, u32 * u32), Q.compute_z_zprime_Q2d(c, [c[:4], c], [c, c[:2]], u32, t32)),
+            lambda: [helper('recurrence_abc', i32(n), f32(a), f32(b)) for n in (0, 1, k, 19, 41) for a, b in ((0.5, -0.5), (-0.25, -0.75), (0, 4), (0.25, -0.25))]]
+    th64 = [lambda: [helper('recurrence_abc', u64(n), np.float64(a), b) for n in (41, 19, k, 1, 0) for a, b in ((-0.5, 0.5), (-0.75, -0.25), (0.0, 0), (0.25, 0.75))],
+            lambda: [helper(nm, n) for nm in ('f_qbfs', 'g_qbfs', 'h_qbfs') for n in (60, 41, k, 2, np.int64(19))],
+            lambda: [helper(nm, n, m) for nm in ('F_q2d', 'G_q2d', 'f_q2d', 'g_q2d', 'abc_q2d', 'abc_q2d_clenshaw') for n in (41, k, np.int64(19)) for m in (1, 2, np.int32(3), 7)],
+            lambda: (P.jacobi(u64(41), np.float64(0.25), f32(-0.25), x), P.jacobi_seq(np.array([0, 1, 2, 400], dtype=np.uint32), -0.5, -0.5, x[:2]),
+                     P.jacobi_der(np.intp(19), 0, 4, x), P.cheby3_seq((n for n in (1, 171)), x), P.cheby2_der_seq(np.array([0, 200]), x[:2])),
+            lambda: (P.jacobi_sum_clenshaw(c, 0, 4, x), P.jacobi_sum_clenshaw(c, -0.25, -0.75, x, alphas=np.zeros((len(c), 4))),
+                     P.jacobi_sum_clenshaw_der(c, 0.25, -0.25, x, j=3), P.jacobi_sum_clenshaw_der(c[:2], -0.75, -0.25, x, j=4)),
+            lambda: (Q.clenshaw_qbfs(c, u * u), Q.clenshaw_qbfs(c, u * u, alphas=np.zeros((len(c), 4))), Q.clenshaw_qbfs_der(c, u * u, j=3),
+                     Q.change_basis_Qbfs_to_Pn(c), Q.compute_z_zprime_Qbfs(c, u, u * u), Q.compute_z_zprime_Qcon(c, u, u * u)),
+            lambda: (Q.change_of_basis_Q2d_to_Pnm(c, 2), Q.change_of_basis_Q2d_to_Pnm(c[:4], 1), Q.clenshaw_q2d(c, 1, u * u), Q.clenshaw_q2d(c[:3], np.int64(4), u * u),
+                     Q.clenshaw_q2d_der(c, 2, u * u, j=2), Q.compute_z_zprime_Q2d(c, [c[:4], c, c[:1]], [c[:1], c, c[:6]], u, t),
+                     Q.compute_z_zprime_Q2d(c[:2], [c[:5]], [[]], u, t), Q.Q2d_nm_c_to_a_b(np.array([(0, 0), (2, 1), (1, -1), (0, 3), (2, -3)]), c[:5])),
+            lambda: (P.zernike_nm(np.int32(41), np.int32(-3), u, t, norm=False), P.zernike_nm_seq(np.array([(4, 2), (4, -2), (60, 0), (19, 1)]), u, t, norm=False),
+                     P.zernike_nm_der_seq([(3, 1), (3, -1), (8, 0)], u, t, norm=False), P.Qcon(np.uint32(41), u), P.Qcon_seq([0, 171], u[:2]),
+                     P.Q2d(41, 7, u, t), P.Q2d_seq([(41, 1), (3, -7), (60, 0)], u, t), P.Qbfs_seq(range(0, 61, 20), u)),
+            lambda: (P.xy_seq([(4, 0), (0, 3), (2, 2)], x, u, cartesian_grid=False), P.xy(3, 2, x, u, cartesian_grid=False), P.hopkins(-2, 3, 1, u, t, u))]
+
+    def fit():
+        X, Y = np.meshgrid(np.linspace(-1, 1, 12), np.linspace(-1, 1, 11))
+        basis = np.array([np.ones(X.shape), X, Y, X * Y, X * X - Y * Y])
+        data = np.tensordot(c[:5], basis, axes=(0, 0))
+        data[3, 4] = np.nan
+        data[7, 1] = np.inf
+        P.lstsq(basis, data)
+        P.lstsq(list(basis), data)
+        P.sum_of_2d_modes(basis, c[:5])
+        P.sum_of_2d_modes_backprop(basis, data * 0 + 1.0)
+    th64.append(fit)
+    bad = warm32(*th32)
+    with quiet(), np.errstate(all='ignore'):
+        for th in th64:
+            try:
+                th()
+            except Exception:  # noqa
+                bad += 1
+    return bad
